@@ -7,10 +7,10 @@ import (
 	"testing"
 	"time"
 
-	math "github.com/IBM/mathlib"
 	"github.com/IBM/TSS/mpc/bls"
 	"github.com/IBM/TSS/mpc/ps"
 	tss "github.com/IBM/TSS/types"
+	math "github.com/IBM/mathlib"
 	"pgregory.net/rapid"
 
 	"verif/core/backends"
@@ -43,8 +43,8 @@ type c11Case struct {
 }
 
 type c11Info struct {
-	Frames    int            // frames sent during the operation
-	PerPeer   map[int]int    // frames per sender during the operation
+	Frames    int         // frames sent during the operation
+	PerPeer   map[int]int // frames per sender during the operation
 	Steps     int
 	Results   map[int]string // party -> "ok" | error text
 	Leaked    bool
